@@ -14,3 +14,6 @@ for patch in "$@"; do
   echo "$line"
   git -C /repo checkout -- . && git -C /repo clean -fdq src
 done
+
+# the runs above rewrote evidence/*.json from a PATCHED tree: put the committed evidence (clean tree) back
+git -C /verif checkout -q -- evidence 2>/dev/null || true
